@@ -60,6 +60,9 @@ func wireByTypeField(c *core.Ctx, r *core.Report, rule string, iface *types.Name
 			if !ok {
 				continue
 			}
+			if n, isNamed := tn.Type().(*types.Named); isNamed && transientType(c, n, 0) {
+				continue // a run context / policy object made per call: nothing is wired into it
+			}
 			for i := 0; i < st.NumFields(); i++ {
 				sl, ok := st.Field(i).Type().(*types.Slice)
 				if !ok || !types.Identical(sl.Elem(), iface) {
@@ -102,9 +105,7 @@ func c13(c *core.Ctx, r *core.Report) {
 	}
 	// R1/R2: decision table of the start routine
 	var runnerInst *ssa.Function
-	isRefresh := func(com *ssa.CallCommon) bool { return core.IsInvoke(com, ro.FRefresh) }
-	isRun := func(com *ssa.CallCommon) bool { return core.IsInvoke(com, ro.RunnerRun) }
-	subjects := lowestReaching(c, "app", isRefresh, isRun)
+	subjects := startRoutines(c)
 	ar := c.Named("definition", "ApplicationRunner")
 	appT := c.Named("app", "App")
 	if r.Exactly("C13.R1", "start routines (smallest function of package app reaching both Factory.Refresh and ApplicationRunner.Run)", len(subjects), 1) && ar != nil && appT != nil {
@@ -184,4 +185,22 @@ func c13(c *core.Ctx, r *core.Report) {
 	} else {
 		r.Undecided("C13.R4", "role:ApplicationRunner", "", "definition.ApplicationRunner not found")
 	}
+}
+
+// startRoutines: the smallest functions of package app that reach both Factory.Refresh and ApplicationRunner.Run -
+// lifted, when the protocol sits in a helper that is handed its steps, to the helper's only caller that takes
+// nothing but the App.
+func startRoutines(c *core.Ctx) []*ssa.Function {
+	ro := c.Roles()
+	subs := lowestReaching(c, "app",
+		func(com *ssa.CallCommon) bool { return core.IsInvoke(com, ro.FRefresh) },
+		func(com *ssa.CallCommon) bool { return core.IsInvoke(com, ro.RunnerRun) })
+	var out []*ssa.Function
+	for _, f := range subs {
+		g := liftToShape(c, f, func(sig *types.Signature) bool { return sig.Params().Len() == 0 })
+		if !containsFn(out, g) {
+			out = append(out, g)
+		}
+	}
+	return out
 }
